@@ -15,7 +15,7 @@ pub fn subs() -> Vec<Sub> {
 fn run_buffers(ctx: &Ctx) -> CheckResult {
     let live = Cell::new(true);
     let st = ctx.stats("buffers", &live);
-    let n_hashes = ctx.tier.pick(24usize, 400);
+    let n_hashes = ctx.tier.pick(40usize, 400);
     for va in ctx.api.variants() {
         let v = va.v();
         let hashes = ctx.sample_values(&format!("hashes/{}", v.name), n_hashes, &(crate::gens::hash_bytes_strategy(v), any::<u64>()));
